@@ -43,6 +43,79 @@ type raceCell struct {
 // RaceLog accumulates the races found by all executions of this process (drained by the harness frame).
 var RaceLog = map[string]*RaceRec{}
 
+// Racy sites. An access whose position key ("dir/file.go Func expr", the position without its line number) is in
+// RacyActive is preceded by a scheduling point (racyPoint). The set starts as racy_sites.txt (SetRacySites, called
+// by the worker's main) and grows: when an execution finds a racing pair whose keys are not active yet they are put
+// into RacyPending, and Explore merges them and explores the scenario again (the set must not change inside one
+// depth-first search, recorded prefixes would no longer replay). So a change to the repository that creates a new
+// unsynchronised access - a dropped lock, a buffer hoisted to package scope - gets its interleavings explored
+// without anybody editing the list.
+var (
+	RacyActive  = map[string]bool{}
+	RacyPending = map[string]bool{}
+	racyOfPos   = map[string]bool{} // position string -> active? (cache)
+)
+
+// RacyKey strips the line number from a position string.
+func RacyKey(pos string) string {
+	i := 0
+	for i < len(pos) && pos[i] != ':' {
+		i++
+	}
+	j := i
+	for j < len(pos) && pos[j] != ' ' {
+		j++
+	}
+	if i == len(pos) {
+		return pos
+	}
+	return pos[:i] + pos[j:]
+}
+
+// SetRacySites replaces the active set.
+func SetRacySites(keys []string) {
+	RacyActive = map[string]bool{}
+	for _, k := range keys {
+		RacyActive[k] = true
+	}
+	racyOfPos = map[string]bool{}
+}
+
+// MergeRacyPending activates the sites found racing since the last merge; it reports whether there were any.
+func MergeRacyPending() bool {
+	n := 0
+	for k := range RacyPending {
+		if !RacyActive[k] {
+			RacyActive[k] = true
+			n++
+		}
+	}
+	RacyPending = map[string]bool{}
+	if n > 0 {
+		racyOfPos = map[string]bool{}
+	}
+	return n > 0
+}
+
+// ActiveRacySites lists the active set, sorted.
+func ActiveRacySites() []string {
+	var out []string
+	for k := range RacyActive {
+		out = append(out, k)
+	}
+	sort.Strings(out)
+	return out
+}
+
+func racyActive(pos string) bool {
+	v, ok := racyOfPos[pos]
+	if !ok {
+		v = RacyActive[RacyKey(pos)]
+		racyOfPos[pos] = v
+	}
+	return v
+}
+
 // RaceAccesses counts instrumented accesses checked (evidence of coverage).
 var RaceAccesses int64
 
@@ -80,6 +153,13 @@ func mapFatal(kind, a, tha, b, thb string) {
 }
 
 func raceReport(kind, a, tha, b, thb string) {
+	if !RaceBuild {
+		for _, k := range []string{RacyKey(a), RacyKey(b)} {
+			if !RacyActive[k] {
+				RacyPending[k] = true
+			}
+		}
+	}
 	if a > b {
 		a, b, tha, thb = b, a, thb, tha
 	}
@@ -144,6 +224,9 @@ func raceAccess(p unsafe.Pointer, pos string, write bool, isMap bool) {
 // R records a read of *p and returns p.
 func R[T any](p *T, pos string) *T {
 	if unsafe.Sizeof(*p) != 0 {
+		if !RaceBuild && racyActive(pos) {
+			racyPoint(unsafe.Pointer(p), pos)
+		}
 		raceAccess(unsafe.Pointer(p), pos, false, false)
 	}
 	return p
@@ -152,6 +235,9 @@ func R[T any](p *T, pos string) *T {
 // W records a write of *p and returns p.
 func W[T any](p *T, pos string) *T {
 	if unsafe.Sizeof(*p) != 0 {
+		if !RaceBuild && racyActive(pos) {
+			racyPoint(unsafe.Pointer(p), pos)
+		}
 		raceAccess(unsafe.Pointer(p), pos, true, false)
 	}
 	return p
@@ -160,6 +246,9 @@ func W[T any](p *T, pos string) *T {
 // MR records a read of map m (lookup, len, range) and returns m.
 func MR[M ~map[K]V, K comparable, V any](m M, pos string) M {
 	if m != nil {
+		if !RaceBuild && racyActive(pos) {
+			racyPoint(*(*unsafe.Pointer)(unsafe.Pointer(&m)), pos)
+		}
 		raceAccess(*(*unsafe.Pointer)(unsafe.Pointer(&m)), pos, false, true)
 	}
 	return m
@@ -168,6 +257,9 @@ func MR[M ~map[K]V, K comparable, V any](m M, pos string) M {
 // MW records a write of map m (store, delete) and returns m.
 func MW[M ~map[K]V, K comparable, V any](m M, pos string) M {
 	if m != nil {
+		if !RaceBuild && racyActive(pos) {
+			racyPoint(*(*unsafe.Pointer)(unsafe.Pointer(&m)), pos)
+		}
 		raceAccess(*(*unsafe.Pointer)(unsafe.Pointer(&m)), pos, true, true)
 	}
 	return m
@@ -190,29 +282,4 @@ func racyPoint(p unsafe.Pointer, pos string) {
 		e.racyObj[p] = o
 	}
 	PointOp(&Pending{Kind: "racy " + pos, Obj: o, NoHB: true})
-}
-
-// RY / WY / MRY / MWY: as R / W / MR / MW, preceded by a scheduling point (normal build, listed sites).
-func RY[T any](p *T, pos string) *T {
-	racyPoint(unsafe.Pointer(p), pos)
-	return p
-}
-
-func WY[T any](p *T, pos string) *T {
-	racyPoint(unsafe.Pointer(p), pos)
-	return p
-}
-
-func MRY[M ~map[K]V, K comparable, V any](m M, pos string) M {
-	if m != nil {
-		racyPoint(*(*unsafe.Pointer)(unsafe.Pointer(&m)), pos)
-	}
-	return MR(m, pos)
-}
-
-func MWY[M ~map[K]V, K comparable, V any](m M, pos string) M {
-	if m != nil {
-		racyPoint(*(*unsafe.Pointer)(unsafe.Pointer(&m)), pos)
-	}
-	return MW(m, pos)
 }
